@@ -233,6 +233,33 @@ def correspond(ctx, scale):
             dist[kind] += 1
             if len(samples) < 4:
                 samples.append(dict(kind=kind, ops=trace))
+    # modules built from PER-RANK random states inside a real 2-process gloo group (props/c20_worker.py): no collective of the library's own may overwrite
+    # what a module was built with
+    import tempfile, shutil, time, os as _os
+    import torch.multiprocessing as _mp
+    from props import c20_worker
+    dtmp = tempfile.mkdtemp(dir='/dev/shm', prefix='vq_c20_')
+    try:
+        pc = _mp.spawn(c20_worker.worker, args=(2, _os.path.join(dtmp, 'init'), dtmp, rng.randrange(10 ** 6)), nprocs=2, join=False)
+        deadline = time.time() + 180
+        while not pc.join(timeout=5):
+            if time.time() > deadline:
+                for p_ in pc.processes:
+                    if p_.is_alive():
+                        p_.kill()
+                raise TimeoutError('the worker processes did not finish within the deadline')
+        for r_ in range(2):
+            res_r = torch.load(_os.path.join(dtmp, f'c20_rank{r_}.pt'))
+            for name_, changed_ in res_r.items():
+                evaluations += 1
+                dist['per_rank_modules_in_process_group'] = dist.get('per_rank_modules_in_process_group', 0) + 1
+                if changed_:
+                    failures.append({'key': f'{name_}:process-group:buffer-changed', 'what': f'{name_} built from a per-rank random state inside a 2-process group, rank {r_}: non-learned buffers changed during a forward: {changed_}',
+                                     'case': dict(kind=name_, rank=r_, distributed=True)})
+    except Exception as ex:
+        failures.append({'key': f'process-group:spawn:{type(ex).__name__}', 'what': f'2-process gloo run failed: {str(ex)[:300]}', 'case': dict(distributed=True)})
+    finally:
+        shutil.rmtree(dtmp, ignore_errors=True)
     # inventory tie: live registries vs the generated inventories, evaluated in Coq
     live = [('inv_simvq', SimVQ(dim=4, codebook_size=5)), ('inv_rpq', RandomProjectionQuantizer(dim=4, codebook_size=5, codebook_dim=2)),
             ('inv_fsq', FSQ([3, 4])), ('inv_lfq', LFQ(dim=3, codebook_size=8)), ('inv_rfsq', ResidualFSQ(levels=[3, 3], num_quantizers=2)),
